@@ -516,6 +516,9 @@ def check_is_excluded(rep, F):
     fo = Fold(f).run()
     conds = getattr(fo, "conds", {})
     rets = [e for e in fo.events if e["kind"] == "return"]
+    # `return <condition>;` is `if (<condition>) return true; return false;`
+    rets = [dict(e, guards=list(e["guards"]) + [(e["value"], True, None)], value=True) if isinstance(e["value"], tuple) and e["value"] and e["value"][0] in ("!=", "==", "&&", "||", "!") else e
+            for e in rets]
     trues = [e for e in rets if e["value"] in (True, sp.true)]
     ok, why = len(trues) == 1, "expected one 'found' return, got %d" % len(trues)
     if ok:
